@@ -9,13 +9,13 @@ use crate::engine::*;
 use crate::model::blake2b::blake2b;
 use crate::model::interp::D;
 use crate::props::c19_costs::{PLUTUS_V1, PLUTUS_V2};
-use pallas_codec::utils::{Bytes, CborWrap, MaybeIndefArray, NonEmptyKeyValuePairs, NonEmptySet, NonZeroInt, Nullable, Set};
+use pallas_codec::utils::{Bytes, CborWrap, KeyValuePairs, MaybeIndefArray, NonEmptyKeyValuePairs, NonEmptySet, NonZeroInt, Nullable, Set};
 use pallas_crypto::hash::Hash;
 use pallas_primitives::{
     Fragment,
     conway::{
-        Certificate, CostModels, DatumOption, ExUnits, Language, PlutusScript, PostAlonzoTransactionOutput, PseudoScript, Redeemer, RedeemerTag, Redeemers, RedeemersKey, RedeemersValue, StakeCredential, TransactionBody,
-        TransactionInput, TransactionOutput, Tx, Value, WitnessSet,
+        Anchor, Certificate, CostModels, DatumOption, ExUnits, GovAction, GovActionId, Language, PlutusScript, PostAlonzoTransactionOutput, ProposalProcedure, PseudoScript, Redeemer, RedeemerTag, Redeemers, RedeemersKey, RedeemersValue, StakeCredential, TransactionBody,
+        TransactionInput, TransactionOutput, Tx, Value, Vote, Voter, VotingProcedure, WitnessSet,
     },
 };
 use pallas_traverse::{Era, MultiEraTx};
@@ -34,13 +34,13 @@ use uplc::{
 
 pub const ASSUMPTIONS: &[&str] = &[
     "the contents of the script context (field order inside TxInfo, value encodings) are not judged against the ledger - there is no independent ledger model offline; the context handed to the reference evaluation is obtained from the public TxInfoV*::from_transaction(..).into_script_context(..).to_plutus_data(), and only its redeemer, purpose (tag, output reference, datum) and the canonical order of its inputs are checked against the model",
-    "which script and datum a redeemer (tag, index) designates is the model's own: inputs ordered by (transaction id, index), minting policies by hash, withdrawals by reward account (script credentials before key credentials), certificates in transaction order",
+    "which script and datum a redeemer (tag, index) designates is the model's own: inputs ordered by (transaction id, index), minting policies by hash, withdrawals by reward account (script credentials before key credentials), certificates and proposals in transaction order, voters by (committee script, committee key, DRep script, DRep key, pool) then hash",
     "a script fails when the CEK machine errors (including running out of the budget left); a PlutusV3 script that returns a non-unit value without erroring is returned to the caller as an EvalResult and judged by the caller (EvalResult::failed), as `eval_phase_two` documents",
     "missing redeemers are only detectable with the phase-one checks enabled (run_phase_one = true), which is how the command line calls the library",
     "cost models: the PlutusV1/V2 vectors of the repository's recorded-transaction tests and the PlutusV3 vector of the conformance tests; without cost models the machine's defaults are used",
 ];
 
-pub const RULE: &str = "generated Conway transactions with 1-4 distinct scripts (PlutusV1 / V2 / V3; per-script cost offset; failing on one redeemer value; a V3 variant returning a non-unit value) used by 1-6 purposes (spend with inline or hashed datum, mint, withdraw, publish), interleaved with key-locked inputs, key withdrawals and key certificates that shift indices, inputs sharing a transaction id with indices on both sides of a digit boundary, scripts supplied as witnesses or as reference scripts on reference inputs or on spent inputs, redeemers as list or map in arbitrary order; x initial budgets (ample, exactly the total, one unit short of redeemer k in cpu or mem) x with / without cost models x two permutations of resolved inputs, witness scripts and datums x removal of a needed script, datum or redeemer. Non-trivial = at least two redeemers with different costs, at least one datum looked up by hash or one reference script, and a permutation that is not the identity; distinct by transaction bytes.";
+pub const RULE: &str = "generated Conway transactions with 1-4 distinct scripts (PlutusV1 / V2 / V3; per-script cost offset; failing on one redeemer value; a V3 variant returning a non-unit value) used by 1-6 purposes (spend with inline or hashed datum, mint, withdraw, publish, and in PlutusV3-only transactions vote as committee or DRep script and propose a guarded treasury withdrawal), interleaved with key-locked inputs, key withdrawals, key certificates, key voters and unguarded proposals that shift indices, inputs sharing a transaction id with indices on both sides of a digit boundary, scripts supplied as witnesses or as reference scripts on reference inputs or on spent inputs, redeemers as list or map in arbitrary order; x initial budgets (ample, exactly the total, one unit short of redeemer k in cpu or mem) x with / without cost models x two permutations of resolved inputs, witness scripts and datums x removal of a needed script, datum or redeemer. Non-trivial = at least two redeemers with different costs, at least one datum looked up by hash or one reference script, and a permutation that is not the identity; distinct by transaction bytes.";
 
 // ------------------------------------------------------------------ scripts
 
@@ -114,6 +114,18 @@ enum Purpose {
     Mint,
     Reward,
     Cert { variant: u8 },
+    /// a vote cast by a script voter: constitutional committee (true) or DRep (false)
+    Vote { committee: bool },
+    /// a treasury withdrawal proposal guarded by the script
+    Propose { n: u8 },
+}
+
+/// Things not guarded by scripts that shift redeemer indices (PlutusV3-only transactions).
+#[derive(Clone, Debug, Default)]
+struct Governance {
+    /// key voters: (kind 1 = committee key, 3 = DRep key, 4 = stake pool; hash)
+    key_voters: Vec<(u8, [u8; 28])>,
+    plain_proposals_before: usize,
 }
 
 #[derive(Clone, Debug)]
@@ -174,6 +186,7 @@ fn build_tx(
     key_inputs: &[(Vec<u8>, u64)],
     key_withdrawals: &[[u8; 28]],
     key_certs_before: usize,
+    gov: &Governance,
     redeemer_order: &[usize],
     redeemers_as_map: bool,
     net: u8,
@@ -264,6 +277,30 @@ fn build_tx(
             }
         }
     }
+    // voters in canonical order (committee script, committee key, DRep script, DRep key, pool; then hash)
+    let mut voters: Vec<(u8, [u8; 28])> = gov.key_voters.clone();
+    for u in uses {
+        if let Purpose::Vote { committee } = &u.purpose {
+            voters.push((if *committee { 0 } else { 2 }, scripts[u.script].hash));
+        }
+    }
+    voters.sort();
+    voters.dedup();
+    // proposals in transaction order: plain ones first, then the guarded ones in use order
+    let anchor = || Anchor { url: "https://example.org".to_string(), content_hash: Hash::<32>::from([7u8; 32]) };
+    let mut proposals: Vec<ProposalProcedure> = (0..gov.plain_proposals_before).map(|i| ProposalProcedure { deposit: 100 + i as u64, reward_account: Bytes::from(reward_addr(&[0x55; 28], false, net)), gov_action: GovAction::Information, anchor: anchor() }).collect();
+    let mut proposal_index: Vec<(usize, u32)> = vec![];
+    for (ui, u) in uses.iter().enumerate() {
+        if let Purpose::Propose { n } = &u.purpose {
+            proposal_index.push((ui, proposals.len() as u32));
+            proposals.push(ProposalProcedure {
+                deposit: 1_000 + *n as u64,
+                reward_account: Bytes::from(reward_addr(&[0x56; 28], false, net)),
+                gov_action: GovAction::TreasuryWithdrawals(KeyValuePairs::from(vec![(Bytes::from(reward_addr(&[0x57; 28], false, net)), 1 + *n as u64)]), Nullable::Some(Hash::<28>::from(scripts[u.script].hash))),
+                anchor: anchor(),
+            });
+        }
+    }
     // redeemer keys
     let key_of = |ui: usize| -> (RedeemerTag, u32) {
         let u = &uses[ui];
@@ -272,6 +309,8 @@ fn build_tx(
             Purpose::Mint => (RedeemerTag::Mint, policies.iter().position(|p| *p == scripts[u.script].hash).unwrap() as u32),
             Purpose::Reward => (RedeemerTag::Reward, script_rewards.iter().position(|p| *p == scripts[u.script].hash).unwrap() as u32),
             Purpose::Cert { .. } => (RedeemerTag::Cert, cert_index.iter().find(|(i, _)| *i == ui).unwrap().1),
+            Purpose::Vote { committee } => (RedeemerTag::Vote, voters.iter().position(|v| *v == (if *committee { 0 } else { 2 }, scripts[u.script].hash)).unwrap() as u32),
+            Purpose::Propose { .. } => (RedeemerTag::Propose, proposal_index.iter().find(|(i, _)| *i == ui).unwrap().1),
         }
     };
     let mut order = vec![];
@@ -332,8 +371,28 @@ fn build_tx(
             collateral_return: None,
             total_collateral: None,
             reference_inputs: NonEmptySet::from_vec(reference_inputs),
-            voting_procedures: None,
-            proposal_procedures: None,
+            voting_procedures: if voters.is_empty() {
+                None
+            } else {
+                let p = perm(8, voters.len());
+                NonEmptyKeyValuePairs::from_vec(
+                    p.iter()
+                        .map(|&i| {
+                            let (kind, h) = voters[i];
+                            let h = Hash::<28>::from(h);
+                            let voter = match kind {
+                                0 => Voter::ConstitutionalCommitteeScript(h),
+                                1 => Voter::ConstitutionalCommitteeKey(h),
+                                2 => Voter::DRepScript(h),
+                                3 => Voter::DRepKey(h),
+                                _ => Voter::StakePoolKey(h),
+                            };
+                            (voter, NonEmptyKeyValuePairs::from_vec(vec![(GovActionId { transaction_id: Hash::<32>::from([9u8; 32]), action_index: i as u32 }, VotingProcedure { vote: Vote::Yes, anchor: Nullable::Null })]).unwrap())
+                        })
+                        .collect(),
+                )
+            },
+            proposal_procedures: NonEmptySet::from_vec(proposals),
             treasury_value: None,
             donation: None,
         },
@@ -449,9 +508,11 @@ fn ctx_checks(ctx: &PlutusData, lang: u8, u: &Use, scripts: &[Script], sorted_in
             if lang == 3 { D::C(2, vec![cred]) } else { D::C(2, vec![D::C(0, vec![cred])]) }
         }
         Purpose::Cert { .. } => D::C(3, vec![]),
+        Purpose::Vote { committee } => D::C(4, vec![D::C(if *committee { 0 } else { 1 }, vec![D::C(1, vec![D::B(scripts[u.script].hash.to_vec())])])]),
+        Purpose::Propose { .. } => D::C(5, vec![]),
     };
     match (&u.purpose, purpose) {
-        (Purpose::Cert { .. }, D::C(3, _)) => {}
+        (Purpose::Cert { .. }, D::C(3, _)) | (Purpose::Propose { .. }, D::C(5, _)) => {}
         _ if *purpose == want_purpose => {}
         _ => return Err(format!("context purpose is {} but the redeemer designates {}", purpose.show().chars().take(160).collect::<String>(), want_purpose.show().chars().take(160).collect::<String>())),
     }
@@ -584,6 +645,7 @@ fn judge(src: &mut Src, st: &mut Stats) -> CheckResult {
         }
     }
     let any_v1 = scripts.iter().any(|s| s.spec.lang == 1);
+    let all_v3 = scripts.iter().all(|s| s.spec.lang == 3);
     let net = src.below(2) as u8;
     // ---- uses
     let nuses = 1 + src.weighted(&[2, 4, 4, 3, 2, 1]);
@@ -600,10 +662,12 @@ fn judge(src: &mut Src, st: &mut Stats) -> CheckResult {
             let datum = if sp.lang == 3 && src.chance(1, 4) { None } else { Some(src.below(15) as i64) };
             Purpose::Spend { input: (id, ix), datum, inline: !any_v1 && src.chance(1, 2) }
         } else {
-            match src.below(3) {
+            match src.below(if all_v3 { 5 } else { 3 }) {
                 0 => Purpose::Mint,
                 1 => Purpose::Reward,
-                _ => Purpose::Cert { variant: src.below(6) as u8 },
+                2 => Purpose::Cert { variant: src.below(6) as u8 },
+                3 => Purpose::Vote { committee: src.bool() },
+                _ => Purpose::Propose { n: src.below(4) as u8 },
             }
         };
         // one mint / one withdrawal per script; distinct inputs and certificates
@@ -611,6 +675,8 @@ fn judge(src: &mut Src, st: &mut Stats) -> CheckResult {
             (Purpose::Mint, Purpose::Mint) | (Purpose::Reward, Purpose::Reward) => u.script == si,
             (Purpose::Spend { input: a, .. }, Purpose::Spend { input: b, .. }) => a == b,
             (Purpose::Cert { variant: a }, Purpose::Cert { variant: b }) => u.script == si && a % 3 == b % 3 && (a % 3 == 0 || a == b),
+            (Purpose::Vote { committee: a }, Purpose::Vote { committee: b }) => u.script == si && a == b,
+            (Purpose::Propose { n: a }, Purpose::Propose { n: b }) => u.script == si && a == b,
             _ => false,
         });
         if !clash {
@@ -637,6 +703,14 @@ fn judge(src: &mut Src, st: &mut Stats) -> CheckResult {
     kw.dedup();
     let key_withdrawals = kw;
     let key_certs_before = src.below(3);
+    let gov = if all_v3 {
+        let mut kv: Vec<(u8, [u8; 28])> = (0..src.below(3)).map(|_| (*src.pick(&[1u8, 3, 4]), [src.below(256) as u8; 28])).collect();
+        kv.sort();
+        kv.dedup();
+        Governance { key_voters: if uses.iter().any(|u| matches!(u.purpose, Purpose::Vote { .. })) || src.chance(1, 4) { kv } else { vec![] }, plain_proposals_before: if uses.iter().any(|u| matches!(u.purpose, Purpose::Propose { .. })) { src.below(3) } else { 0 } }
+    } else {
+        Governance::default()
+    };
     let mut redeemer_order: Vec<usize> = (0..uses.len()).collect();
     for i in (1..redeemer_order.len()).rev() {
         let j = src.below(i + 1);
@@ -661,10 +735,10 @@ fn judge(src: &mut Src, st: &mut Stats) -> CheckResult {
     let describe = json!({
         "scripts": scripts.iter().zip(&supply).map(|(s, sup)| json!({"language": s.spec.lang, "arguments": if s.spec.lang == 3 { 1 } else if s.spec.spend_arity { 3 } else { 2 }, "cost_offset": s.spec.salt, "fails_on_redeemer": s.spec.fail_on, "returns_non_unit": s.spec.non_unit, "hash": hex::encode(s.hash), "supplied": format!("{sup:?}")})).collect::<Vec<_>>(),
         "uses": uses.iter().map(|u| json!({"purpose": format!("{:?}", u.purpose).chars().take(160).collect::<String>(), "script": u.script, "redeemer": u.redeemer})).collect::<Vec<_>>(),
-        "key_inputs": key_inputs.iter().map(|(i, x)| format!("{}#{x}", hex::encode(&i[..4]))).collect::<Vec<_>>(), "key_withdrawals": key_withdrawals.len(), "key_certificates_first": key_certs_before,
+        "key_inputs": key_inputs.iter().map(|(i, x)| format!("{}#{x}", hex::encode(&i[..4]))).collect::<Vec<_>>(), "key_withdrawals": key_withdrawals.len(), "key_certificates_first": key_certs_before, "key_voters": gov.key_voters.iter().map(|(k, h)| format!("{k}:{:02x}", h[0])).collect::<Vec<_>>(), "plain_proposals_first": gov.plain_proposals_before,
         "redeemer_order": redeemer_order, "redeemers_as_map": as_map, "cost_models": with_costs, "network": net,
     });
-    let build = |p: &dyn Fn(usize, usize) -> Vec<usize>, ds: Option<usize>, dd: bool, dr: Option<usize>| build_tx(&scripts, &supply, &uses, &key_inputs, &key_withdrawals, key_certs_before, &redeemer_order, as_map, net, ds, dd, dr, p);
+    let build = |p: &dyn Fn(usize, usize) -> Vec<usize>, ds: Option<usize>, dd: bool, dr: Option<usize>| build_tx(&scripts, &supply, &uses, &key_inputs, &key_withdrawals, key_certs_before, &gov, &redeemer_order, as_map, net, ds, dd, dr, p);
     let base = match build(&identity, None, false, None) {
         Ok(b) => b,
         Err(e) => {
@@ -780,6 +854,9 @@ fn judge(src: &mut Src, st: &mut Stats) -> CheckResult {
     let distinct_costs = model.costs.len() >= 2 && model.costs.iter().any(|c| *c != model.costs[0]);
     let lookup = uses.iter().any(|u| matches!(&u.purpose, Purpose::Spend { datum: Some(_), inline: false, .. })) || supply.iter().any(|s| *s != Supply::Witness);
     st.class(&format!("redeemers:{}", base.order.len().min(5)));
+    for (t, _, _) in &base.order {
+        st.class(&format!("purpose:{}", tag_name(t)));
+    }
     st.class(&format!("languages:{}", { let mut l: Vec<u8> = scripts.iter().map(|s| s.spec.lang).collect(); l.sort(); l.dedup(); l.iter().map(|x| format!("V{x}")).collect::<Vec<_>>().join("+") }));
     if distinct_costs && lookup && permuted_nontrivially {
         st.nontrivial(&base.tx_bytes);
